@@ -375,6 +375,25 @@ static inline uint64_t cxx_str_bytes(uint64_t n) { return n + 1; }
   static inline strview strview_substr(strview a, uint64_t pos, uint64_t cnt) \
   { CXX_ASSERT(pos <= a.n, "string_view::substr position (throws out_of_range otherwise)"); \
     strview r; uint64_t m = a.n - pos; if (cnt < m) m = cnt; r.p = a.p + pos; r.n = m; return r; }
+/* ------------------------------------------------------------------ std::ostringstream: the text plus the formatting state the
+   lowered code sets.  Integers are written in base 10 or 16 (std::hex), upper case with std::uppercase, padded on the left with the
+   fill character to the width set by std::setw, which applies to the next formatted item only (as in the library; character and
+   string output is padded too, none of the lowered call sites does that) */
+#define CXX_OSS() \
+  static inline void cxx_oss_pad(cxx_oss *o, uint64_t len) \
+  { char f = o->fill ? o->fill : ' '; for (uint64_t __k = len; __k < o->width; ++__k) str_push_back(&o->buf, f); o->width = 0; } \
+  static inline void cxx_oss_put_n(cxx_oss *o, const char *s, uint64_t n) { cxx_oss_pad(o, n); str_append_n(&o->buf, s, n); } \
+  static inline void cxx_oss_put_cstr(cxx_oss *o, const char *s) { cxx_oss_put_n(o, s, cxx_strlen(s)); } \
+  static inline void cxx_oss_put_char(cxx_oss *o, char c) { cxx_oss_pad(o, 1); str_push_back(&o->buf, c); } \
+  static inline void cxx_oss_put_u64(cxx_oss *o, uint64_t v, _Bool neg) \
+  { char d[24]; uint64_t n = 0; uint64_t b = (o->base == 16) ? 16 : 10; \
+    do { uint64_t r = v % b; d[n++] = (char)(r < 10 ? '0' + r : (o->upper ? 'A' : 'a') + (r - 10)); v /= b; } while (v != 0 && n < 22); \
+    if (neg) d[n++] = '-'; \
+    cxx_oss_pad(o, n); \
+    for (uint64_t __k = n; __k > 0; --__k) str_push_back(&o->buf, d[__k - 1]); } \
+  static inline void cxx_oss_put_i64(cxx_oss *o, int64_t v) \
+  { if (o->base == 16) cxx_oss_put_u64(o, (uint64_t)v, 0); else if (v < 0) cxx_oss_put_u64(o, (uint64_t)0 - (uint64_t)v, 1); else cxx_oss_put_u64(o, (uint64_t)v, 0); }
+
 /* s.rfind(lit, 0): 0 if s starts with lit, npos otherwise */
 static inline uint64_t cxx_rfind0_cstr(const char *p, uint64_t n, const char *lit)
 #ifndef CXX_NATIVE
